@@ -1,6 +1,10 @@
 package gen
 
-import "verifharness/ty"
+import (
+	"strings"
+
+	"verifharness/ty"
+)
 
 // SupportedEqual: the type grammar the equal plugin documents as supported (as in C01/C02):
 // no chan/func/interface, no pointer to an unnamed struct, no unnamed non-comparable struct as a
@@ -240,4 +244,20 @@ func HasMethods(env *ty.Env, t *ty.Ty) bool {
 		}
 	})
 	return has
+}
+
+// MethodsAgree reports whether every method-declaring type reachable from t that declares `need`
+// (a method letter: E, C or H) also declares `then`: only then does the user's own code promise the
+// consistency between the two derived functions that the corpus checks.
+func MethodsAgree(env *ty.Env, t *ty.Ty, need, then string) bool {
+	ok := true
+	Walk(env, t, CtxTop, map[int]bool{}, func(x *ty.Ty, ctx int) {
+		if x.K == ty.Named {
+			m := env.Decls[x.N].Methods
+			if strings.Contains(m, need) && !strings.Contains(m, then) {
+				ok = false
+			}
+		}
+	})
+	return ok
 }
